@@ -479,6 +479,9 @@ def gen_inputs(rng, script, ncycles):
     tape = []
     prev = None
     for _ in range(ncycles):
+        if prev is not None and rng.random() < 0.15:
+            tape.append(dict(prev))          # an idle cycle: the whole stimulus repeats
+            continue
         cyc = {}
         for n, w in ins:
             if prev is not None and rng.random() < 0.15:
